@@ -61,6 +61,7 @@ type tracer struct {
 	ioKinds   []string
 	lastMetaWritten bool
 	quietUntil      int
+	filled          bool
 }
 
 var curTracer *tracer
@@ -153,7 +154,7 @@ func (t *tracer) replayObj(upto int) map[string]any {
 
 // afterCommitted: decode the file, emit the model checks, run monitors that need the new version.
 func (t *tracer) afterCommitted(i int) {
-	if i < t.quietUntil {
+	if i >= 0 && i < t.quietUntil {
 		t.cur = nil // fault runs: the history before the targeted commit was checked by the dry run
 		return
 	}
@@ -165,6 +166,13 @@ func (t *tracer) afterCommitted(i int) {
 	t.cur = v
 	t.emit("used", usedLine(v))
 	t.emit("fl", flLine(t.e.DB))
+	// C07: exact accounting and structure of the committed file, by the independent reader
+	if dec[6] != "errors -" {
+		t.rep.violation("C07", "monitor", "structure:"+firstWords(dec[6], 6), fmt.Sprintf("after op %d: structural errors found by the independent reader: %s", i, truncate(dec[6], 300)), t.replayObj(i))
+	}
+	if !strings.HasPrefix(dec[5], "accounting ok=true") {
+		t.rep.violation("C07", "monitor", "accounting:"+accountingClass(dec[5]), fmt.Sprintf("after op %d: %s [%s]", i, truncate(dec[5], 300), t.o), t.replayObj(i))
+	}
 	api := "dump:" + hashStr(dumpDB(t.e.DB))
 	if v.dump != api {
 		t.rep.violation("C12", "monitor", "decode-content-differs", fmt.Sprintf("after op %d: independent decode %s, API %s", i, v.dump, api), t.replayObj(i))
@@ -194,6 +202,42 @@ func (t *tracer) checkWrites(i int, committedOK bool) {
 		}
 	}
 	t.writes = nil
+}
+
+// checkReaderPagesWithheld: no page that an open reader's version references is allocatable
+// (theorems C02.reader_pages_not_free / C10.reader_pages_withheld evaluated on the real
+// allocator). When one is, the search continues the history with a transaction that allocates
+// enough pages to reuse it, so that the C06 write monitor shows the concrete overwrite.
+func (t *tracer) checkReaderPagesWithheld(i int) {
+	if t.e.DB == nil || t.e.W != nil || t.filled {
+		return
+	}
+	free, _ := t.e.DB.VerifFreelistState()
+	fs := map[uint64]bool{}
+	for _, p := range free {
+		fs[p] = true
+	}
+	for _, rid := range sortedKeys(t.readers) {
+		r := t.readers[rid]
+		for p := range r.used {
+			if fs[p] {
+				what := fmt.Sprintf("after op %d: page %d is referenced by open reader %s (txid %d) and is in the free list: the next writer may overwrite it", i, p, rid, r.txid)
+				t.rep.violation("C10", "monitor", "reader-page-allocatable", what, t.replayObj(i))
+				t.rep.violation("C02", "monitor", "reader-page-allocatable", what, t.replayObj(i))
+				// continue the history: a transaction that allocates at least as many pages as are free
+				t.filled = true
+				ps := t.e.DB.VerifPageSize()
+				fill := []Op{{K: "beginw"}, {K: "mkbi", Tx: "w", Key: "zz-fill"}}
+				for k := 0; k < len(free)+4; k++ {
+					fill = append(fill, Op{K: "put", Tx: "w", Path: []string{"zz-fill"}, Key: fmt.Sprintf("fill%04d", k), Val: strings.Repeat("F", ps/2)})
+				}
+				fill = append(fill, Op{K: "commit"})
+				rest := append([]Op(nil), t.ops[i+1:]...)
+				t.ops = append(append(t.ops[:i+1:i+1], fill...), rest...)
+				return
+			}
+		}
+	}
 }
 
 // snapshotUnchanged: every open reader still sees exactly the state it started with.
@@ -258,7 +302,8 @@ func runTrace(rep *Report, dir, tag string, o optSet, ops []Op) *tracer {
 		return t
 	}
 	defer t.e.CloseAll()
-	for i, op := range ops {
+	for i := 0; i < len(t.ops); i++ {
+		op := t.ops[i]
 		t.curOp = i
 		var rtx uint64
 		if op.K == "endr" && t.e.R[op.Tx] != nil {
@@ -313,7 +358,13 @@ func runTrace(rep *Report, dir, tag string, o optSet, ops []Op) *tracer {
 				t.emit("beginR", "ok")
 				tx := t.e.R[op.Tx]
 				v := &versionInfo{txid: uint64(tx.ID()), dump: "dump:" + hashStr(dumpTx(tx))}
-				if t.cur != nil {
+				if t.cur == nil && t.e.W == nil {
+					// quiet prefix of a fault run: the newest version has not been decoded yet
+					if cv, _, err := decodeVersion(t.e.Path); err == nil {
+						t.cur = cv
+					}
+				}
+				if t.cur != nil && t.cur.txid == v.txid {
 					v.used, v.hwm = t.cur.used, t.cur.hwm
 				}
 				t.readers[op.Tx] = v
@@ -355,6 +406,7 @@ func runTrace(rep *Report, dir, tag string, o optSet, ops []Op) *tracer {
 				t.afterFailedCommit(i, r)
 			}
 			t.checkReaders(i)
+			t.checkReaderPagesWithheld(i)
 		default:
 			// allocator events of ordinary operations (DeleteBucket frees pages at once)
 			for _, l := range t.buf {
@@ -439,6 +491,21 @@ func (t *tracer) afterFailedCommit(i int, r string) {
 	sortU64(ids)
 	if dec[3] != "flpage -" && "free "+u64s(ids) != dec[4] {
 		t.rep.violation("C08", "monitor", "allocator-after-failed-commit:"+t.faultKind, fmt.Sprintf("op %d: after the failed commit the in-memory free+pending ids differ from the committed freelist page", i), t.replayObj(i))
+	}
+	// every page below the high-water mark is referenced by the committed state or free/pending
+	// in memory — otherwise the next commit persists a leak (C07) and Tx.Check reports it
+	inMem := map[uint64]bool{}
+	for _, id := range ids {
+		inMem[id] = true
+	}
+	for p := uint64(2); p < v.hwm; p++ {
+		if !v.used[p] && !inMem[p] {
+			t.rep.violation("C07", "monitor", "leak-after-failed-tx", fmt.Sprintf("op %d: after the failed transaction page %d is neither referenced by the committed state nor free/pending in memory (the next commit would persist the leak)", i, p), t.replayObj(i))
+			break
+		}
+	}
+	if bad := checkDB(t.e.DB); bad != "" {
+		t.rep.violation("C07", "monitor", "check-after-failed-tx", fmt.Sprintf("op %d: Tx.Check after the failed transaction: %s", i, truncate(bad, 200)), t.replayObj(i))
 	}
 	for _, id := range ids {
 		if v.used[id] {
@@ -533,7 +600,15 @@ func traceEngine() {
 		if steady {
 			ops = steadyOverwrite(rng, o.PageSize)
 		}
+		if pi%6 == 2 {
+			// a size limit small enough that some commits are rejected (failed transactions
+			// inside spill / commitFreelist), followed by further transactions
+			o.MaxSize = []int{48 << 10, 96 << 10, 200 << 10, 70000}[rng.Intn(4)]
+			o.NoGrowSync = false
+		}
+		inFlight("trace", map[string]any{"options": o.String(), "opts": o, "ops": opLines(ops)})
 		t := runTrace(rep, dir, fmt.Sprintf("t%d", pi), o, ops)
+		inFlight("trace", nil)
 		t.steady = steady
 		checkTrace(rep, t)
 	}
